@@ -177,6 +177,12 @@ fn resolve_type(
             return;
         }
 
+        // Imported built-in Android type (e.g. import android.os.IBinder) => it stays the built-in
+        if let Some(android) = ast::AndroidTypeKind::from_qualified_name(import_path) {
+            type_.kind = ast::TypeKind::AndroidType(android);
+            return;
+        }
+
         // Imported but not defined => set resolved item as unknown import
         type_.kind = ast::TypeKind::ResolvedItem(
             import_path.to_owned(),
